@@ -17,24 +17,21 @@ Theorem C19_stairstep : forall ops v, wf_ops ops ->
   fin (c_stair c) /\ R32 (c_stair c) = rnd (IZR (c_note c) / 12).
 Proof. exact stairstep_spec. Qed.
 
-(** the fraction is input - stairstep, computed on the input itself when the hysteresis
-    window kept the note and on the clamped input otherwise *)
+(** the fraction is (clamped input) - stairstep on both paths *)
 Theorem C19_fraction : forall ops v, wf_ops ops ->
-  let q := qrun ops in
-  let c := snd (convert q v) in
-  c_frac c = fsub (if keeps q v then v else clamp_vin v) (c_stair c).
+  let c := snd (convert (qrun ops) v) in
+  c_frac c = fsub (clamp_vin v) (c_stair c).
 Proof. exact fraction_spec. Qed.
 
-(** stairstep + fraction reproduces that input to within two f32 ulps of the larger of
-    input and stairstep (for inputs within [0, 10] V the clamped value is the input) *)
-Theorem C19_recompose : forall ops v, wf_ops ops -> fin v ->
-  let q := qrun ops in
-  let c := snd (convert q v) in
-  let v' := if keeps q v then v else clamp_vin v in
+(** stairstep + fraction reproduces the clamped input to within two f32 ulps of the larger
+    of input and stairstep; for inputs within [0, 10] V the clamped value is the input *)
+Theorem C19_recompose : forall ops v, wf_ops ops ->
+  let c := snd (convert (qrun ops) v) in
+  let v' := clamp_vin v in
   fin (fadd (c_stair c) (c_frac c)) /\
   Rabs (R32 (fadd (c_stair c) (c_frac c)) - R32 v')
     <= 2 * ulp radix2 fexp32 (Rmax (Rabs (R32 v')) (R32 (c_stair c))) /\
-  (0 <= R32 v <= 10 -> R32 v' = R32 v).
+  (fin v -> 0 <= R32 v <= 10 -> v' = v).
 Proof. exact recompose_spec. Qed.
 
 (** chromatic scale, no history: the fraction lies in [0, 1) semitone, up to the 10 microvolt
